@@ -849,6 +849,18 @@ Proof.
   simpl. unfold diag_of_item. rewrite K. left. reflexivity.
 Qed.
 
+(** The same, stated on the token list of [lex] alone: each token's lexeme occurs in the source,
+    and its line is 1 + the number of newlines before the lexeme's last character. *)
+Theorem token_line_src src t : In t (lx_tokens (lex src)) ->
+  exists pre post, src = pre ++ tlex t ++ post /\ tline t = 1 + count_nl (pre ++ removelast (tlex t)).
+Proof.
+  rewrite tokens_of_lex. intros HT. destruct (token_origin _ _ HT) as (it & HI & K & TL & LN).
+  apply in_split in HI. destruct HI as (i1 & i2 & H).
+  exists (concat (map itext i1)), (concat (map itext i2)). rewrite TL, LN. split.
+  - rewrite <- (lex_items_partition src) at 1. rewrite H, map_app, concat_app. reflexivity.
+  - eapply token_line_spec; eassumption.
+Qed.
+
 (* ------------------------------------------------------------------ *)
 (** * Item 6: classification of the items *)
 
@@ -1182,6 +1194,7 @@ Print Assumptions scan1_step.
 Print Assumptions lex_items_partition.
 Print Assumptions eof_line.
 Print Assumptions token_line_spec.
+Print Assumptions token_line_src.
 Print Assumptions lex_items_classify.
 Print Assumptions keyword_iff_in.
 Print Assumptions number_maximal.
